@@ -224,6 +224,28 @@ def enum_c05():
     add('reset_cases', c4, 'ebgp', E.update([], base(c4, skip=(3,)) + [E.attr(0x80, 14, E.mp_reach_value(E.IPV6_MC, fill(16), [E.prefix(8, [1])]))], []).d)
     add('reset_cases', c4, 'ebgp', E.update([], base(c4, skip=(3,)) + [E.attr(0x80, 14, [0, 2, 1])], []).d)
     add('reset_cases', c4, 'ebgp', E.update([], base(c4, skip=(3,)) + [E.attr(0x80, 14, E.mp_reach_value(E.IPV6, fill(5), [E.prefix(8, [1])]))], []).d)
+    # families modelled since round 3: a faulty attribute next to their MP_REACH / MP_UNREACH (must be withdrawn),
+    # a missing mandatory attribute, and NLRI of theirs that cannot be parsed (reset allowed)
+    fam_nlri = {E.EVPN: E.evpn(2, E.evpn_t2(ip=[192, 0, 2, 9])), E.RTC: E.rtc(96, fill(12)), E.IPV4_SRP: E.srp(96, 1, 2, [1, 2, 3, 4]),
+                E.IPV4_FS: E.flowspec([E.fs_prefix4(1, 24, [10, 0, 0]), E.fs_ops(3, [(1, 6)])]),
+                E.IPV6_FS: E.flowspec([E.fs_prefix6(1, 32, 0, [0x20, 1, 0xd, 0xb8])]),
+                E.IPV4_FSVPN: E.flowspec([E.fs_ops(5, [(1, 80)])], rd=E.RD0)}
+    for fam, n in fam_nlri.items():
+        cf = {'ext': False, 'two': False, 'nh': False, 'fams': [(E.IPV4, False), (fam, False)]}
+        nh = [] if (fam & 0xff) in (133, 134) else [10, 0, 0, 1]
+        mr = lambda x: E.attr(0x80, 14, E.mp_reach_value(fam, nh, [x]))
+        mu = lambda x: E.attr(0x80, 15, E.mp_unreach_value(fam, [x]))
+        for extra in ([], [fatal], [disc], [unk_wk], [E.attr(0x40, 5, fill(3))]):
+            add('new_family_x_attr_error', cf, 'ebgp', E.update([], base(cf, skip=(3,)) + extra + [mr(n)], []).d)
+            add('new_family_x_attr_error', cf, 'ibgp', E.update([], base(cf, skip=(3,)) + extra + [mr(n), mu(n)], []).d)
+        for skip in ((1, 3), (2, 3), (1, 2, 3)):
+            add('new_family_missing_mandatory', cf, 'ebgp', E.update([], base(cf, skip=skip) + [mr(n)], []).d)
+        add('new_family_flag_error_mp', cf, 'ebgp', E.update([], base(cf, skip=(3,)) + [E.attr(0xc0, 14, E.mp_reach_value(fam, nh, [n]))], []).d)
+        add('new_family_flag_error_mp', cf, 'ebgp', E.update([], [E.attr(0x00, 15, E.mp_unreach_value(fam, [n]))], []).d)
+        add('new_family_unparsable_nlri', cf, 'ebgp', E.update([], base(cf, skip=(3,)) + [mr(B(n.d[:-1]))], []).d)
+        add('new_family_unparsable_nlri', cf, 'ebgp', E.update([], [mu(B(n.d + [255]))], []).d)
+        add('new_family_nexthop_forms', cf, 'ebgp', E.update([], base(cf, skip=(3,)) + [E.attr(0x80, 14, E.mp_reach_value(fam, [], [n]))], []).d)
+        add('new_family_nexthop_forms', cf, 'ebgp', E.update([], base(cf, skip=(3,)) + [E.attr(0x80, 14, E.mp_reach_value(fam, fill(16), [n]))], []).d)
     for nh in ([0] * 8 + [1, 1, 1, 1], [0] * 8 + fill(16), fill(4), fill(16), fill(32)):
         add('vpn_nexthop_forms', c4, 'ebgp', E.update([], base(c4, skip=(3,)) + [E.attr(0x80, 14, E.mp_reach_value(E.IPV4_VPN, nh, [E.vpn([100], [0, 0, 0, 1, 0, 0, 0, 1], 24, [10, 0, 1])]))], []).d)
     return out
